@@ -9,7 +9,7 @@ from jv import flow
 from jv.facts import Program, AnalysisBroken
 from jv.summaries import Summaries
 from jv.vm import VMHandlers
-from jv.util import is_ref, is_mem, strip_casts
+from jv.util import is_ref, is_mem, strip_casts, case_map
 
 EXPLANATION = (
     "Static rules: (COMMIT) must-dataflow over run_vm's CFG per opcode handler with an interprocedural "
@@ -447,6 +447,90 @@ def _sloteq_rule(chk, prog):
     chk.floor(rule, 4)
 
 
+TYPE_FIELDS = {
+    "JINT_0": set(), "JINT_S": {"D"}, "JINT_L": {"DS"}, "JINT_SS": {"A", "E"}, "JINT_SL": {"A", "ES"}, "JINT_ST": {"A", "E"},
+    "JINT_SI": {"A", "ES"}, "JINT_SD": {"A", "E"}, "JINT_SU": {"A", "E"}, "JINT_SSS": {"A", "B", "C"},
+    "JINT_SSI": {"A", "B", "CS"}, "JINT_SSU": {"A", "B", "C"}, "JINT_SES": {"A", "B", "C"}, "JINT_SC": {"A", "E"},
+}
+
+
+def _handlerfields_rule(chk, prog, types):
+    """The instruction-type table (janet_instructions[]) says how an opcode's operands are laid out; the compiler's
+    emitters, the verifier and the assembler all follow it.  The interpreter's handler must decode the same fields: a
+    handler that reads the 8-bit A of a one-operand instruction whose operand is the 24-bit D works only while the
+    operand is below 256 - with more locals it silently uses another slot.  The dead-move pass has its own copy of the
+    layout (AA/BB/CC/DD/EE) and must agree as well."""
+    rule = "C02-HANDLERFIELDS"
+    chk.rule(rule, "each run_vm handler (and the dead-move pass) decodes exactly the operand fields of the opcode's instruction type")
+    vm = VMHandlers(prog)
+    vfn = vm.fn
+    dispatch = vfn.igoto
+    LETTERS = ("A", "B", "C", "D", "E", "CS", "DS", "ES")
+
+    def ptransfer(st, n):
+        if n.k == "call" and n.callee == "janet_fiber_popframe":
+            return frozenset(["popped"])
+        return st
+    n = 0
+    for lab, e in sorted(vm.handler_entry_blocks().items()):
+        if not lab.startswith("label_JOP_"):
+            continue
+        op = lab[len("label_"):]
+        t = types.get(op)
+        if t is None or t not in TYPE_FIELDS:
+            continue
+        I, O = flow.forward(vfn, frozenset(), ptransfer, lambda a, b: a | b,
+                            edge=lambda st, blk, succ, c, t_: None if succ == dispatch else st, start=e)
+        used = {}
+        for b, st in I.items():
+            for x in vfn.blocks[b].elems:
+                if not st:
+                    for y in x.walk():
+                        for m in y.macro_names():
+                            m = m.rstrip("@")
+                            if m in LETTERS:
+                                used.setdefault(m, y)
+                st = ptransfer(st, x)
+        n += 1
+        chk.instance(rule)
+        # position only: C/CS, D/DS, E/ES name the same bits (signedness of immediates is C09-ASMOPS' and C15's business)
+        extra = sorted(m for m in used if m[0] not in set(l[0] for l in TYPE_FIELDS[t]))
+        if extra:
+            y = used[extra[0]]
+            chk.violation(rule, "vm.c", "run_vm", "%s:%s" % (op, ",".join(extra)), y.loc,
+                          "the handler of %s decodes field %s, but its instruction type %s has the operand fields %s: for operands "
+                          "that do not fit the narrower field (slots above 255) the interpreter uses a different slot than the one "
+                          "the compiler encoded" % (op, ",".join(extra), t, sorted(TYPE_FIELDS[t]) or "none"))
+        else:
+            chk.ok(rule, "%s (%s): handler decodes %s" % (op, t, sorted(used)))
+    # the dead-move pass
+    mv = prog.need_func("janet_bytecode_movopt", "bytecode.c")
+    sws = sorted([x for x in mv.nodes if x.k == "switch"], key=lambda x: x.ln)
+    if sws:
+        cm = case_map(sws[0])
+        for x in sws[0].walk():
+            if x.k == "call" and x.callee == "janetc_regalloc_touch" and x.id in cm:
+                letter = None
+                for m in x.args[1].macro_names():
+                    if m in ("AA", "BB", "CC", "DD", "EE"):
+                        letter = m[0]
+                for lab2 in cm[x.id]:
+                    t = types.get(lab2)
+                    if not lab2.startswith("JOP_") or t not in TYPE_FIELDS or letter is None:
+                        continue
+                    n += 1
+                    chk.instance(rule)
+                    allowed = set(l[0] for l in TYPE_FIELDS[t])
+                    if letter in allowed:
+                        chk.ok(rule, "movopt: %s counts field %s as read" % (lab2, letter))
+                    else:
+                        chk.violation(rule, "bytecode.c", mv.name, "%s:%s%s" % (lab2, letter, letter), x.loc,
+                                      "dead-move elimination counts field %s of %s as the slot it reads, but the instruction type %s "
+                                      "has fields %s: for a far operand it marks the wrong register live and may delete the move that "
+                                      "feeds the real one" % (letter, lab2, t, sorted(TYPE_FIELDS[t])))
+    chk.floor(rule, 80, n)
+
+
 _run_commit_only = run
 
 
@@ -460,5 +544,6 @@ def run(chk):   # noqa
     _closureflag_rule(chk, prog)
     _wrflag_rule(chk, prog)
     _sloteq_rule(chk, prog)
+    _handlerfields_rule(chk, prog, types)
     from rules import c02_fields
     c02_fields.run(chk, prog)
